@@ -7,6 +7,7 @@ import (
 	"sync/atomic"
 
 	"github.com/rs/zerolog/log"
+	"google.golang.org/grpc/codes"
 	"google.golang.org/grpc/encoding"
 	"google.golang.org/grpc/encoding/proto"
 	"google.golang.org/grpc/stats"
@@ -116,7 +117,7 @@ func (rm *RpcMultiplexer) CallUnaryMethod(
 				Header:     headers,
 			})
 		}
-		if resp.Status != nil {
+		if resp.Status != nil && resp.Status.Code != int32(codes.OK) {
 			return nil, status.FromProto(&spb.Status{
 				Code:    resp.Status.Code,
 				Message: resp.Status.Message,
